@@ -232,6 +232,7 @@ func richHonest(r *mrand.Rand) *world.World {
 	}
 	w.Qe.Levels = ql
 	w.Tcb.TimeStyle, w.Qe.TimeStyle = r.Intn(6), r.Intn(6) // any legal RFC 3339 spelling of the same instants
+	w.HdrStyle = r.Intn(3)                                 // any usual URL-escaping of the issuer chains
 	w.Resign()
 
 	// five different instants anywhere inside every window (documents: issue-1d .. +30d; certificates: far)
